@@ -220,6 +220,8 @@ def rule_e(ctx):
     ctx.ob("floor|keyed-constructions", n >= 4, "expected >= 4 constructions of keyed actions (2 scheduling fns + 2 EventSource fns); found %d" % n)
 
 
+WITNESS = ['c09']  # doctest filters in /verif/witness (thorough tier)
+
 RULES = [
     ("C09.a", "cancelled actions are skipped when choosing the next key", rule_a),
     ("C09.b", "keyed model events re-check the flag inside the model", rule_b),
